@@ -10,6 +10,8 @@
 (*   b    the operand stack BEFORE the instruction (bottom first), words   *)
 (*        as decimal strings;  the stack AFTER it is the b of the next line*)
 (*   cost the gas the interpreter charged for the instruction              *)
+(* preceded by one "Begin" line (sto0: the storage committed before the    *)
+(* program's transaction)                                                  *)
 (* and one "End" line per program: final stack, error text, the memory and *)
 (* the storage slots read back from the real objects.                      *)
 (*                                                                         *)
@@ -23,16 +25,18 @@ TraceLog == ndJsonDeserialize("trace.ndjson")
 
 VARIABLES l,      \* next line
           mem,    \* model memory of the running program: byte address -> byte
+          msize,  \* words of memory the running program has allocated (and paid for) so far
           sto,    \* model storage of the running program: key word -> value word
+          orig,   \* storage committed before the program's transaction ("original" values of net gas metering)
           viol,   \* set of <<clause, {opcode}, line>>
           fired   \* per clause: how many times it was evaluated
-mvars == <<l, mem, sto, viol, fired>>
+mvars == <<l, mem, msize, sto, orig, viol, fired>>
 
 Clauses == {"Result", "RestUnchanged", "Cost", "StackOp", "MemReadBack", "StorageReadBack", "Executes", "FinalMemory",
             "FinalStorage"}
 Empty == [a \in {} |-> 0]
 
-MonInit == l = 1 /\ mem = Empty /\ sto = Empty /\ viol = {} /\ fired = [c \in Clauses |-> 0]
+MonInit == l = 1 /\ mem = Empty /\ msize = 0 /\ sto = Empty /\ orig = Empty /\ viol = {} /\ fired = [c \in Clauses |-> 0]
 
 \* judged: set of clause names evaluated; bad: subset that failed
 Judge(op, judged, bad) ==
@@ -51,8 +55,8 @@ StepEv(e, after) ==
        op     == e.op
        n      == Len(before)
    IN
-   IF ~AllWords(before) THEN UNCHANGED <<mem, sto, viol, fired>>
-   ELSE IF ~AllWords(after) THEN Judge(op, {"Result"}, {"Result"}) /\ UNCHANGED <<mem, sto>>
+   IF ~AllWords(before) THEN UNCHANGED <<mem, msize, sto, orig, viol, fired>>
+   ELSE IF ~AllWords(after) THEN Judge(op, {"Result"}, {"Result"}) /\ UNCHANGED <<mem, msize, sto, orig>>
    ELSE
    CASE op \in CompOps ->
           \* "returns the result defined by the EVM specification modulo 2^256",
@@ -62,37 +66,48 @@ StepEv(e, after) ==
               okC == n >= Arity(op) /\ e.cost = Gas(op, TopN(before, Arity(op)))
           IN  /\ Judge(op, {"Result", "RestUnchanged", "Cost"},
                        {c \in {"Result"} : ~okR} \cup {c \in {"RestUnchanged"} : ~okS} \cup {c \in {"Cost"} : ~okC})
-              /\ UNCHANGED <<mem, sto>>
-     [] op = "PUSH" -> Judge(op, {"StackOp"}, {c \in {"StackOp"} : ~PushOK(e.v, before, after)}) /\ UNCHANGED <<mem, sto>>
-     [] op = "POP"  -> Judge(op, {"StackOp"}, {c \in {"StackOp"} : ~PopOK(before, after)}) /\ UNCHANGED <<mem, sto>>
-     [] op = "DUP"  -> Judge(op, {"StackOp"}, {c \in {"StackOp"} : ~DupOK(e.k, before, after)}) /\ UNCHANGED <<mem, sto>>
-     [] op = "SWAP" -> Judge(op, {"StackOp"}, {c \in {"StackOp"} : ~SwapOK(e.k, before, after)}) /\ UNCHANGED <<mem, sto>>
+              /\ UNCHANGED <<mem, msize, sto, orig>>
+     [] op = "PUSH" -> Judge(op, {"StackOp"}, {c \in {"StackOp"} : ~PushOK(e.v, before, after)}) /\ UNCHANGED <<mem, msize, sto, orig>>
+     [] op = "POP"  -> Judge(op, {"StackOp"}, {c \in {"StackOp"} : ~PopOK(before, after)}) /\ UNCHANGED <<mem, msize, sto, orig>>
+     [] op = "DUP"  -> Judge(op, {"StackOp"}, {c \in {"StackOp"} : ~DupOK(e.k, before, after)}) /\ UNCHANGED <<mem, msize, sto, orig>>
+     [] op = "SWAP" -> Judge(op, {"StackOp"}, {c \in {"StackOp"} : ~SwapOK(e.k, before, after)}) /\ UNCHANGED <<mem, msize, sto, orig>>
      \* "memory and storage opcodes read back what was written"
-     [] op = "MSTORE" ->
-          /\ Judge(op, {"RestUnchanged"}, {c \in {"RestUnchanged"} : ~(n >= 2 /\ after = Below(before, 2))})
-          /\ mem' = IF n >= 2 /\ Small(before[n]) THEN MemStore(mem, BigToInt(before[n]), before[n - 1]) ELSE mem
-          /\ UNCHANGED sto
-     [] op = "MSTORE8" ->
-          /\ Judge(op, {"RestUnchanged"}, {c \in {"RestUnchanged"} : ~(n >= 2 /\ after = Below(before, 2))})
-          /\ mem' = IF n >= 2 /\ Small(before[n]) THEN MemStore8(mem, BigToInt(before[n]), before[n - 1]) ELSE mem
-          /\ UNCHANGED sto
+     \* "charges the specified gas": 3 + the memory expansion; the frame's allocated words are monitor state
+     [] op \in {"MSTORE", "MSTORE8"} ->
+          LET okS  == n >= 2 /\ after = Below(before, 2)
+              sm   == n >= 2 /\ Small(before[n])
+              off  == BigToInt(before[n])
+              okC  == sm => e.cost = MemOpGas(op, msize, off)
+          IN  /\ Judge(op, {"RestUnchanged", "Cost"}, {c \in {"RestUnchanged"} : ~okS} \cup {c \in {"Cost"} : ~okC})
+              /\ mem' = IF ~sm THEN mem
+                        ELSE IF op = "MSTORE" THEN MemStore(mem, off, before[n - 1]) ELSE MemStore8(mem, off, before[n - 1])
+              /\ msize' = IF sm THEN MaxI(msize, WordsFor(off, MemOpLen(op))) ELSE msize
+              /\ UNCHANGED <<sto, orig>>
      [] op = "MLOAD" ->
           LET okS == RestOK(1, before, after)
-              okM == n >= 1 /\ Len(after) >= 1 /\ (Small(before[n]) => after[Len(after)] = MemLoad(mem, BigToInt(before[n])))
-          IN  /\ Judge(op, {"RestUnchanged", "MemReadBack"},
-                       {c \in {"RestUnchanged"} : ~okS} \cup {c \in {"MemReadBack"} : ~okM})
-              /\ UNCHANGED <<mem, sto>>
+              sm  == n >= 1 /\ Small(before[n])
+              off == BigToInt(before[n])
+              okM == n >= 1 /\ Len(after) >= 1 /\ (sm => after[Len(after)] = MemLoad(mem, off))
+              okC == sm => e.cost = MemOpGas(op, msize, off)
+          IN  /\ Judge(op, {"RestUnchanged", "MemReadBack", "Cost"},
+                       {c \in {"RestUnchanged"} : ~okS} \cup {c \in {"MemReadBack"} : ~okM} \cup {c \in {"Cost"} : ~okC})
+              /\ msize' = IF sm THEN MaxI(msize, WordsFor(off, 32)) ELSE msize
+              /\ UNCHANGED <<mem, sto, orig>>
+     \* storage: read-back, and the gas of the jump table in use (Istanbul: SLOAD 800, SSTORE net-metered)
      [] op = "SSTORE" ->
-          /\ Judge(op, {"RestUnchanged"}, {c \in {"RestUnchanged"} : ~(n >= 2 /\ after = Below(before, 2))})
-          /\ sto' = IF n >= 2 THEN StoWr(sto, before[n], before[n - 1]) ELSE sto
-          /\ UNCHANGED mem
+          LET okS == n >= 2 /\ after = Below(before, 2)
+              okC == n >= 2 => e.cost = SstoreGas(StoRd(orig, before[n]), StoRd(sto, before[n]), before[n - 1])
+          IN  /\ Judge(op, {"RestUnchanged", "Cost"}, {c \in {"RestUnchanged"} : ~okS} \cup {c \in {"Cost"} : ~okC})
+              /\ sto' = IF n >= 2 THEN StoWr(sto, before[n], before[n - 1]) ELSE sto
+              /\ UNCHANGED <<mem, msize, orig>>
      [] op = "SLOAD" ->
           LET okS == RestOK(1, before, after)
               okM == n >= 1 /\ Len(after) >= 1 /\ after[Len(after)] = StoRd(sto, before[n])
-          IN  /\ Judge(op, {"RestUnchanged", "StorageReadBack"},
-                       {c \in {"RestUnchanged"} : ~okS} \cup {c \in {"StorageReadBack"} : ~okM})
-              /\ UNCHANGED <<mem, sto>>
-     [] OTHER -> UNCHANGED <<mem, sto, viol, fired>>
+              okC == e.cost = SloadGas
+          IN  /\ Judge(op, {"RestUnchanged", "StorageReadBack", "Cost"},
+                       {c \in {"RestUnchanged"} : ~okS} \cup {c \in {"StorageReadBack"} : ~okM} \cup {c \in {"Cost"} : ~okC})
+              /\ UNCHANGED <<mem, msize, sto, orig>>
+     [] OTHER -> UNCHANGED <<mem, msize, sto, orig, viol, fired>>
 
 \* the program ran to its STOP, and what the real memory / storage hold at the end is what the program wrote
 EndEv(e) ==
@@ -103,7 +118,14 @@ EndEv(e) ==
               /\ \A k \in DOMAIN sto : \E i \in 1..Len(e.sto) : e.sto[i][1] = k
    IN  /\ Judge(e.op, {"Executes", "FinalMemory", "FinalStorage"},
                 {c \in {"Executes"} : ~okX} \cup {c \in {"FinalMemory"} : okX /\ ~okM} \cup {c \in {"FinalStorage"} : okX /\ ~okS})
-       /\ mem' = Empty /\ sto' = Empty
+       /\ mem' = Empty /\ msize' = 0 /\ sto' = Empty /\ orig' = Empty
+
+\* the storage the program's contract was deployed with
+BeginEv(e) ==
+   LET S == { e.sto0[i][1] : i \in DOMAIN e.sto0 }
+       f == [k \in S |-> (CHOOSE i \in DOMAIN e.sto0 : e.sto0[i][1] = k)]
+       m0 == [k \in S |-> e.sto0[f[k]][2]]
+   IN  /\ orig' = m0 /\ sto' = m0 /\ mem' = Empty /\ msize' = 0 /\ UNCHANGED <<viol, fired>>
 
 MonStep ==
    /\ l <= Len(TraceLog)
@@ -111,7 +133,8 @@ MonStep ==
    /\ LET e == TraceLog[l] IN
       CASE e.ev = "Step" /\ l < Len(TraceLog) -> StepEv(e, TraceLog[l + 1].b)
         [] e.ev = "End" -> EndEv(e)
-        [] OTHER -> mem' = Empty /\ sto' = Empty /\ UNCHANGED <<viol, fired>>       \* reset / abort markers
+        [] e.ev = "Begin" -> BeginEv(e)
+        [] OTHER -> mem' = Empty /\ msize' = 0 /\ sto' = Empty /\ orig' = Empty /\ UNCHANGED <<viol, fired>>       \* reset / abort markers
 
 MonSpec == MonInit /\ [][MonStep]_mvars
 
